@@ -26,6 +26,9 @@ def _canon(d) -> Optional[str]:
   return d
 
 
+MODEL_SPACES = {_canon(v) for v in sort_tables.EXTENT_SORTS.values()} - {"nworld"}
+
+
 class Sorts:
   def __init__(self, lc: LaunchCtx):
     self.lc = lc
@@ -50,6 +53,11 @@ class Sorts:
       for suf, s in sort_tables.EXTENT_SORTS.items():
         if txt.endswith(suf):
           return s
+      # a thread index over the length of an index list (`m.eq_connect_adr.size`, `body_tree.size`) is a *position in
+      # that list*: an opaque space of its own, compatible only with the list itself
+      for suf in (".size", ".shape[0]"):
+        if txt.endswith(suf):
+          return "pos:" + txt[: -len(suf)]
       return None
     if o == "ld":
       spec = self.lc.field(t.args[0])
@@ -101,6 +109,11 @@ def check_sorts(res: Result, lcs: List[LaunchCtx]):
         known += 1
         if d == "nworld" and s == "nworld":
           continue
+        if s.startswith("pos:"):
+          host = lc.host(a.root)
+          if d not in MODEL_SPACES or (host is not None and host.text == s[4:]):
+            known -= 1
+            continue  # the list itself, or a dimension that is not a model index space
         ok = s == d or (lc.name, a.root) in sort_tables.SORT_EXCEPTIONS
         sig = (lc.name, a.root, k, s, d)
         if not ok and sig in seen:
